@@ -316,18 +316,18 @@ Theorem deep_coverage_stats_bound cov D : cov_ok cov -> supported_from D cov -> 
   st_c0 st == 0 /\ st_c1 st == 0 /\ st_pos st == 1 /\
   0 <= st_s st <= qpow half D /\ 0 <= st_t st <= qnat D * qpow half D /\ 0 <= st_h st <= 2 * qpow half D.
 Proof.
-  intros OK S HD. pose proof (stats_of_valid cov OK) as V. destruct OK as (P & T & Pos). cbv zeta.
-  assert (C0 : st_c0 (stats_of cov) == 0) by (cbn [stats_of st_c0]; apply S; lia).
-  assert (C1 : st_c1 (stats_of cov) == 0) by (cbn [stats_of st_c1]; apply S; lia).
+  intros OK Sp HD. pose proof (stats_of_valid cov OK) as V. destruct OK as (P & T & Pos). cbv zeta.
+  assert (C0 : st_c0 (stats_of cov) == 0) by (cbn [stats_of st_c0]; apply Sp; lia).
+  assert (C1 : st_c1 (stats_of cov) == 0) by (cbn [stats_of st_c1]; apply Sp; lia).
   pose proof (vs_tot _ V) as Tot. split; [exact C0|]. split; [exact C1|]. split; [lra|].
   assert (Ppos : qsum (tl cov) == 1) by (cbn [stats_of st_pos st_c0] in Tot, C0; rewrite Qred_correct in Tot; lra).
   split; [|split].
   - split; [apply (vs_s _ V)|]. cbn [stats_of st_s]. rewrite Qred_correct.
     rewrite <- (Qmult_1_r (qpow half D)), <- T, <- (wsum_const (qpow half D) cov 0).
-    apply wsum_le_supp; [exact P|]. intros k c E. destruct (supported_nth_error D cov k c S E); [now left|right]. apply half_pow_mono. lia.
+    apply wsum_le_supp; [exact P|]. intros k c E. destruct (supported_nth_error D cov k c Sp E); [now left|right]. apply half_pow_mono. lia.
   - split; [apply (vs_t _ V)|]. cbn [stats_of st_t]. rewrite Qred_correct.
     rewrite <- (Qmult_1_r (qnat D * qpow half D)), <- T, <- (wsum_const (qnat D * qpow half D) cov 0).
-    apply wsum_le_supp; [exact P|]. intros k c E. destruct (supported_nth_error D cov k c S E); [now left|right]. apply d_half_pow_mono; lia.
+    apply wsum_le_supp; [exact P|]. intros k c E. destruct (supported_nth_error D cov k c Sp E); [now left|right]. apply d_half_pow_mono; lia.
   - split; [apply (vs_h _ V)|]. cbn [stats_of st_h]. rewrite Qred_correct.
     assert (N : forall c, In c (map (fun c => c / qsum (tl cov)) (tl cov)) -> 0 <= c).
     { intros c Hc. apply in_map_iff in Hc. destruct Hc as (x & <- & Hx).
@@ -339,6 +339,6 @@ Proof.
       intros k c E.
       rewrite nth_error_map in E. destruct (nth_error (tl cov) k) as [c0|] eqn:E0; [|discriminate]. cbn [option_map] in E. injection E as <-.
       assert (E' : nth_error cov (S k) = Some c0) by (destruct cov; [destruct k; discriminate | exact E0]).
-      destruct (supported_nth_error D cov (S k) c0 S E') as [Z|G]; [left; rewrite Z; unfold Qdiv; ring | right; apply half_pow_mono; lia]. }
+      destruct (supported_nth_error D cov (S k) c0 Sp E') as [Z|G]; [left; rewrite Z; unfold Qdiv; ring | right; apply half_pow_mono; lia]. }
     lra.
 Qed.
